@@ -18,6 +18,9 @@ pub struct Stats {
 /// Runs `body` once per path. `body` must execute the code under test; the arena is reset before each
 /// call with the path's prefix.  After `body` returns, every decision past the prefix whose label is
 /// in `flip_labels` (all decisions if empty) is scheduled for flipping, as long as the path has used fewer than `d` flips.
+/// Follow-up rule: on a path that has used its d flips, a comparison that the unflipped root path never made (it exists
+/// only because of the flip: the right operand of a short-circuit `||` / `&&`, a fallback branch) may be flipped once more.
+/// This is what finds "a || b" weakenings, where acceptance needs `a` to fail AND `b` to succeed.
 pub fn explore(
     mode: DrawMode,
     seed: u64,
@@ -26,11 +29,12 @@ pub fn explore(
     flip_labels: &[&str],
     mut body: impl FnMut(&PathInfo),
 ) -> Stats {
-    let mut work: Vec<(Vec<bool>, Vec<usize>)> = vec![(vec![], vec![])];
+    let mut work: Vec<(Vec<bool>, Vec<usize>, bool)> = vec![(vec![], vec![], false)];
+    let mut root_fps: std::collections::HashSet<u64> = Default::default();
     let mut n = 0;
     let mut panics = vec![];
     let mut truncated = false;
-    while let Some((prefix, flips)) = work.pop() {
+    while let Some((prefix, flips, followup)) = work.pop() {
         if n >= max_paths {
             truncated = true;
             break;
@@ -50,6 +54,21 @@ pub fn explore(
         }
         eng::path_done();
         let ds = sx::snapshot_decisions();
+        if prefix.is_empty() && flips.is_empty() {
+            root_fps = ds.iter().map(|x| sx::fingerprint(&x.cond)).collect();
+        }
+        if flips.len() == d && d >= 1 && !followup {
+            for i in (plen..ds.len()).rev() {
+                let lname = sx::label_name(ds[i].label);
+                if (flip_labels.is_empty() || flip_labels.iter().any(|l| *l == lname)) && !root_fps.contains(&sx::fingerprint(&ds[i].cond)) {
+                    let mut p: Vec<bool> = ds[..i].iter().map(|x| x.outcome).collect();
+                    p.push(!ds[i].outcome);
+                    let mut f = flips.clone();
+                    f.push(i);
+                    work.push((p, f, true));
+                }
+            }
+        }
         if flips.len() < d {
             for i in (plen..ds.len()).rev() {
                 let lname = sx::label_name(ds[i].label);
@@ -58,7 +77,7 @@ pub fn explore(
                     p.push(!ds[i].outcome);
                     let mut f = flips.clone();
                     f.push(i);
-                    work.push((p, f));
+                    work.push((p, f, false));
                 }
             }
         }
